@@ -10,6 +10,8 @@ fn usage() -> ! {
 }
 
 fn main() {
+    // anyhow captures a backtrace (global lock, slow) for every injected error when this is on
+    std::env::set_var("RUST_LIB_BACKTRACE", "0");
     engine::panic::install_hook();
     let args: Vec<String> = std::env::args().collect();
     if args.len() < 3 {
@@ -35,6 +37,10 @@ fn run(prop: &str, tier: Tier) -> i32 {
         "C02" => checks::valuespace::run(Prop::C02, tier),
         "C03" => checks::valuespace::run(Prop::C03, tier),
         "C04" => checks::valuespace::run(Prop::C04, tier),
+        "C05" => checks::c05::run(tier),
+        "C09" => checks::c09::run(tier),
+        "C11" => checks::c11::run(tier),
+        "C15" => checks::c15::run(tier),
         _ => {
             eprintln!("unknown property {prop}");
             2
@@ -65,6 +71,10 @@ fn replay(path: &str) -> i32 {
         "C02" => checks::valuespace::replay(Prop::C02, &case),
         "C03" => checks::valuespace::replay(Prop::C03, &case),
         "C04" => checks::valuespace::replay(Prop::C04, &case),
+        "C05" => checks::c05::replay(&case),
+        "C09" => checks::c09::replay(&case),
+        "C11" => checks::c11::replay(&case),
+        "C15" => checks::c15::replay(&case),
         _ => {
             eprintln!("unknown property in replay file");
             2
